@@ -37,13 +37,20 @@ class C09(Check):
             'invariance under changes of y at zero-weight points, linearity in y.  Cholesky: random SPD banded matrices '
             '(bandwidth 1-6, n 2-60) and non-PD / non-finite ones.  Ill-posed fits: data gaps wider than the breakpoint '
             'spacing (also with isolated points inside), empty segments, zero-weight runs, fewer good points than order, <= 2*order breakpoints - the call must '
-            'return a status and finite coefficients, repeated fitting must terminate, and a final status 0 must be the weighted LS optimum over the unmasked breakpoints.  Non-trivial: well-posed with >= 4 '
+            'return a status and finite coefficients, repeated fitting must terminate, and a final status 0 must be the weighted LS optimum over the unmasked breakpoints.  Fits with inputs that are not finite numbers '
+            '(class nonfinite: NaN / +-inf inverse variances at one, a few, a run of or all points, negative inverse variances, NaN / +-inf abscissae '
+            'after, before or among the finite ones): the normal matrix is non-finite, so the call must return an integer status other than success '
+            '(unless the curve is the optimum over the usable points), finite coefficients, the same verdict for blank data, and every cholesky_band '
+            'call made by fit() with a non-finite matrix must signal it.  Non-trivial: well-posed with >= 4 '
             'intervals, or ill-posed reaching maskpoints / the Cholesky fallback; distinct by input hash.')
-    ASSUMPTIONS = ['fit() is called with sorted abscissae as its docstring requires',
+    ASSUMPTIONS = ['fit() is called with sorted abscissae as its docstring requires (class nonfinite: the finite abscissae are sorted)',
+                   'non-finite ordinates y are outside the property (it speaks of the matrix A and of impossible fits, not of the right-hand '
+                   'side): they are not generated',
                    'well-posed problems use quasi-uniform breakpoints (interval widths within a factor 3) and weights within 3 '
                    'decades, so cond(A^T W A) <~ 1e8 and the 1e-7*max|y| tolerance on fitted values has margin; wildly uneven '
                    'knot vectors legitimately trigger the fit\'s min_influence guard (status -1) and are not asserted to give 0']
-    REQUIRED_COUNTERS = ('fits_with_fewer_good_breakpoints_than_the_order', 'status_compared_with_blank_data_twin', 'long_fits_points_times_order_over_2**21', 'wellposed_weakest_coefficient_below_1e-10_of_strongest', 'wellposed_abscissae_with_large_offset', 'wellposed_zero_weight_points_outside_the_knots', 'solve_rhs_be_f8', 'solve_rhs_f4', 'canary_sequences', 'status0_optimality_checked', 'wellposed_status0', 'maskpoints_entered', 'cholesky_fallback_entered', 'status_minus1', 'status_minus2',
+    REQUIRED_COUNTERS = ('fit_nonfinite_matrix_signalled', 'fit_nonfinite_matrix_signalled_without_a_column', 'nonfinite_fits_weights',
+                         'nonfinite_fits_abscissae', 'nonfinite_fits_negative_weights', 'fits_with_fewer_good_breakpoints_than_the_order', 'status_compared_with_blank_data_twin', 'long_fits_points_times_order_over_2**21', 'wellposed_weakest_coefficient_below_1e-10_of_strongest', 'wellposed_abscissae_with_large_offset', 'wellposed_zero_weight_points_outside_the_knots', 'solve_rhs_be_f8', 'solve_rhs_f4', 'canary_sequences', 'status0_optimality_checked', 'wellposed_status0', 'maskpoints_entered', 'cholesky_fallback_entered', 'status_minus1', 'status_minus2',
                          'spd_factorisations', 'nonpd_signalled', 'nonfinite_signalled', 'zero_weight_invariance_checked')
     CASE_CPU_S = 60
 
@@ -53,7 +60,8 @@ class C09(Check):
         self._mp = 0
         self.rec.wrap(B.bspline, 'fit')
         self.rec.wrap(B.bspline, 'maskpoints')
-        self.rec.wrap(B, 'cholesky_band')
+        self._cb = []
+        self.rec.wrap(B, 'cholesky_band', result=self._cholesky_band_returned)
         self.rec.wrap(B, 'cholesky_solve')
         self.rec.wrap(B, 'cholesky_banded', label='scipy.cholesky_banded')     # LinAlgError here == fallback loop entered
         for f in (B.bspline.fit, B.bspline.maskpoints, B.bspline.action, B.cholesky_band, B.cholesky_solve):
@@ -62,9 +70,23 @@ class C09(Check):
     def teardown(self):
         self.rec.unwrap_all()
 
+    def _cholesky_band_returned(self, a, k, r):
+        # observer of every cholesky_band call (also those made from inside fit): was the matrix finite, what came back
+        try:
+            l = a[0] if a else k.get('l')
+            e = r[0]
+            if isinstance(e, (int, np.integer)) and not isinstance(e, bool):
+                kind = 'success' if e == -1 else 'column'
+            else:
+                kind = 'no_column' if np.size(e) == 0 else 'columns'
+            self._cb.append((bool(np.all(np.isfinite(l))), kind))
+        except Exception as exc:                                   # never disturb the call observed
+            self._cb.append((None, 'observer: %r' % (exc,)))
+
     def budget(self, tier):
         k = 1 if tier == 'quick' else 120
-        return {'wellposed': 500 * k, 'cholesky_spd': 400 * k, 'cholesky_bad': 400 * k, 'illposed': 600 * k, 'long': 4 if tier == 'quick' else 40}
+        return {'wellposed': 500 * k, 'cholesky_spd': 400 * k, 'cholesky_bad': 400 * k, 'illposed': 600 * k, 'nonfinite': 400 * k,
+                'long': 4 if tier == 'quick' else 40}
 
     # ------------------------------------------------------------------ gen
     def gen(self, cls, rng, i):
@@ -145,6 +167,73 @@ class C09(Check):
             k = rng.randint(2, 6)
             nx = (2 ** rng.choice([20, 21, 21, 22])) // k + rng.choice([1, 2, 3, 7, 100, 1001, 4097, 65537])
             return {'kind': cls, 'nord': k, 'nx': nx, 'nint': rng.randint(3, 12), 'seed': rng.getrandbits(32)}
+        if cls == 'nonfinite':
+            # fits whose inputs are not all finite numbers, as reduction pipelines produce them: inverse variances computed as
+            # 1/var (var = 0 -> inf, 0/0 -> NaN, dead pixels flagged by NaN), negative "inverse variances" of a mis-subtracted
+            # variance map, abscissae with NaN / inf entries that a sort leaves at the ends.  The normal matrix is then
+            # non-finite (or not positive definite): the fit is impossible and has to say so through its status.
+            k = rng.randint(2, 5)
+            nbk = rng.randint(2, 25)
+            mode = rng.choice(['w_nan', 'w_nan', 'w_nan', 'w_inf', 'w_neginf', 'w_nan_and_inf', 'w_inf_and_neginf',
+                               'x_nan_tail', 'x_inf_tail', 'x_neginf_head', 'x_nan_inside', 'w_negative', 'w_negative'])
+            n = max(rng.randint(30, 120), nbk * (k + 2) * rng.randint(1, 2))
+            x = np.sort(g.uniform(0, 10, n))
+            if rng.random() < 0.25:
+                a = rng.uniform(0.5, 7)                       # ... on top of a data gap
+                keep = (x < a) | (x > a + rng.uniform(1.0, 3.0) * 10.0 / max(nbk - 1, 1))
+                if keep.sum() >= 10:
+                    x = x[keep]
+            n = x.size
+            w = g.uniform(0.5, 2.0, n) * 10 ** (0 if rng.random() < 0.6 else rng.uniform(-12, 12))
+            w[g.uniform(size=n) < rng.choice([0, 0, 0.05, 0.1])] = 0.0
+            where = rng.choice(['one', 'one', 'few', 'run', 'all', 'first', 'last'])
+            if where == 'one':
+                idx = [rng.randrange(n)]
+            elif where == 'few':
+                idx = sorted(rng.sample(range(n), rng.randint(2, 6)))
+            elif where == 'run':
+                a = rng.randrange(0, n - 3)
+                idx = list(range(a, min(n, a + rng.randint(2, max(3, n // 3)))))
+            elif where == 'all':
+                idx = list(range(n))
+            else:
+                idx = [0] if where == 'first' else [n - 1]
+            idx = np.array(idx)
+            y = np.sin(x) + g.normal(0, 0.1, n)
+            if mode == 'w_nan':
+                w[idx] = np.nan
+            elif mode == 'w_inf':
+                w[idx] = np.inf
+            elif mode == 'w_neginf':
+                w[idx] = -np.inf
+            elif mode == 'w_nan_and_inf':
+                w[idx] = np.inf
+                w[rng.randrange(n)] = np.nan
+            elif mode == 'w_inf_and_neginf':
+                w[idx] = np.inf
+                w[rng.randrange(n)] = -np.inf
+            elif mode == 'w_negative':
+                w[idx] = -np.abs(w[idx] + (w[idx] == 0)) * 10 ** rng.uniform(-3, 3)
+            else:
+                # NaN (or +inf) abscissae after the finite ones, where numpy's sort puts them; the spline set is built from the
+                # finite abscissae, the fit receives all points; the extra points carry a weight or none
+                # (also -inf before them, and a NaN among them: one pixel of a wavelength solution that failed)
+                m = rng.randint(1, 4)
+                wm = np.zeros(m) if rng.random() < 0.5 else g.uniform(0.5, 2.0, m)
+                if mode == 'x_nan_inside':
+                    j = np.array(sorted(rng.sample(range(1, n - 1), m)))
+                    x[j] = np.nan
+                    w[j] = wm
+                elif mode == 'x_neginf_head':
+                    x = np.concatenate([np.full(m, -np.inf), x])
+                    y = np.concatenate([g.normal(0, 1, m), y])
+                    w = np.concatenate([wm, w])
+                else:
+                    x = np.concatenate([x, np.full(m, np.nan if mode == 'x_nan_tail' else np.inf)])
+                    y = np.concatenate([y, g.normal(0, 1, m)])
+                    w = np.concatenate([w, wm])
+            return {'kind': cls, 'mode': mode, 'where': where, 'x': x.tolist(), 'y': y.tolist(), 'w': w.tolist(), 'nord': k,
+                    'nbkpts': nbk}
         if cls in ('cholesky_spd', 'cholesky_bad'):
             bw = rng.randint(1, 6)
             n = rng.randint(max(2, bw), 60)
@@ -275,7 +364,19 @@ class C09(Check):
         return res
 
     def run(self, case, out):
-        getattr(self, 'run_' + case['kind'])(case, out)
+        del self._cb[:]
+        try:
+            getattr(self, 'run_' + case['kind'])(case, out)
+        finally:
+            if case['kind'] not in ('cholesky_spd', 'cholesky_bad'):
+                # every factorisation requested from inside a fit: a non-finite matrix is never reported as factorised
+                for finite, kind in self._cb:
+                    if finite is None:
+                        out.fail('harness-error', kind)
+                    elif not finite:
+                        out.expect(kind != 'success', 'signal', 'cholesky_band, called by fit(), reported a non-finite matrix as factorised')
+                        out.count('fit_nonfinite_matrix_signalled', kind != 'success')
+                        out.count('fit_nonfinite_matrix_signalled_without_a_column', kind == 'no_column')
 
     def run_wellposed(self, case, out):
         B = self.B
@@ -455,6 +556,74 @@ class C09(Check):
         else:
             out.count('nonpd_signalled')
         out.nontrivial = True
+
+    def run_nonfinite(self, case, out):
+        B = self.B
+        x = np.array(case['x'], dtype='f8')
+        y = np.array(case['y'], dtype='f8')
+        w = np.array(case['w'], dtype='f8')
+        k = case['nord']
+        mode = case['mode']
+        finx = np.isfinite(x)
+        calls0 = self.rec.calls.get('bspline.maskpoints', 0)
+        out.info.update(mode=mode, where=case['where'], order=k, nbkpts=case['nbkpts'], npts=int(x.size))
+        out.count('nonfinite_fits_' + ('abscissae' if mode.startswith('x_') else 'negative_weights' if mode == 'w_negative' else 'weights'))
+        with warnings.catch_warnings():
+            warnings.simplefilter('ignore')
+            with np.errstate(all='ignore'):
+                s = B.bspline(x[finx], nord=k, nbkpts=case['nbkpts'])
+                t = B.bspline(x[finx], nord=k, nbkpts=case['nbkpts'])        # the same problem with blank data
+                nb0 = len(s.breakpoints)
+                steps = 0
+                prev_good = int(s.mask.sum())
+                while True:
+                    # an exception leaving fit() here is the violation itself (harness clause 'exception')
+                    st, yfit = s.fit(x, y, w)
+                    steps += 1
+                    st_t, yf_t = t.fit(x, np.zeros_like(y), w)
+                    out.expect(st_t == st and bool(np.array_equal(t.mask, s.mask)), 'status',
+                               'step %d: the same abscissae, weights and knots with blank data (y = 0) give status %r and %d masked '
+                               'breakpoints, with the data status %r and %d masked' % (steps, st_t, int((~t.mask).sum()), st, int((~s.mask).sum())),
+                               mode=mode)
+                    out.expect(bool(np.all(np.isfinite(np.asarray(t.coeff, dtype='f8')))), 'finite', 'non-finite coefficients (blank-data twin)')
+                    isint = isinstance(st, (int, np.integer)) and not isinstance(st, bool)
+                    if not out.expect(isint, 'status', 'status is %r (%s), not an integer code' % (st, type(st).__name__)):
+                        return
+                    out.expect(np.shape(yfit) == y.shape, 'status', 'yfit shape %s' % (np.shape(yfit),))
+                    out.expect(bool(np.all(np.isfinite(np.asarray(s.coeff, dtype='f8')))), 'finite',
+                               'non-finite coefficients after status %d (%s)' % (st, mode))
+                    good = int(s.mask.sum())
+                    if st == -1:
+                        out.count('nonfinite_status_minus1')
+                        out.expect(good < prev_good, 'mask', 'status -1 but no further breakpoint was masked (%d -> %d)' % (prev_good, good))
+                    elif st == -2:
+                        out.count('nonfinite_status_minus2')
+                    elif st == 0 and mode != 'w_negative':
+                        # success is believable only from an implementation that set the unusable points aside: then the curve is
+                        # the weighted LS optimum over the points with finite abscissa and weight, on the unmasked breakpoints
+                        out.count('nonfinite_status0')
+                        ws = np.where(np.isfinite(w) & finx, w, 0.0)
+                        gb = np.asarray(s.breakpoints, dtype='f8')[s.mask]
+                        okfit = bool(np.all(np.isfinite(np.asarray(yfit, dtype='f8')[finx]))) and not np.isinf(w).any() and len(gb) >= 2 * k
+                        if okfit:
+                            A = BR.basis_matrix(gb, k, x[finx], extrapolate=True)
+                            cref, rank, sv = BR.wls(A, y[finx], ws[finx])
+                            chi_ref = float(np.sum(ws[finx] * (y[finx] - A @ cref) ** 2))
+                            chi = float(np.sum(ws[finx] * (y[finx] - yfit[finx]) ** 2))
+                            okfit = chi <= chi_ref + 1e-7 * (float(np.sum(ws[finx] * y[finx] ** 2)) + 1e-300)
+                        out.expect(okfit, 'signal', 'status 0 (success) from a fit whose normal equations are not finite (%s), and the '
+                                   'curve is not the optimum over the usable points either' % mode)
+                    elif st == 0:
+                        out.count('negative_weights_status0')
+                        out.expect(bool(np.all(np.isfinite(yfit))), 'finite', 'status 0 with non-finite fitted values')
+                        out.expect(good == prev_good, 'mask', 'status 0 (success) although this call dropped breakpoints (%d -> %d)' % (prev_good, good))
+                    prev_good = good
+                    if st in (0, -2) or steps > nb0 + 2:
+                        break
+                out.expect(steps <= nb0 + 2, 'terminates', 'refitting after status -1 did not terminate in %d steps' % steps)
+        out.count('maskpoints_entered', self.rec.calls.get('bspline.maskpoints', 0) - calls0)
+        out.nontrivial = True
+        out.info.update(steps=steps, final=int(st))
 
     def run_illposed(self, case, out):
         B = self.B
